@@ -283,7 +283,11 @@ type reopenCase struct {
 	Writes1 int         `json:"writes1"`
 	Writes2 int         `json:"writes2"`
 	Kill    *CrashPoint `json:"kill,omitempty"`
-	Back    int64       `json:"back"` // how far the second process's clock is behind (ns)
+	Back    int64       `json:"back"`            // how far the second process's clock is behind (ns)
+	Colls   int         `json:"colls,omitempty"` // collections the writes are spread over (default 1)
+	// Tail: what the first process does after its writes: "" | "drop" (drops the named collection
+	// that received the last write) | "purge" (deletes the key written last and purges tombstones)
+	Tail string `json:"tail,omitempty"`
 }
 
 func runReopenCase(c reopenCase) ([]Deviation, error) {
@@ -297,25 +301,47 @@ func runReopenCase(c reopenCase) ([]Deviation, error) {
 	}
 	defer os.RemoveAll(dir)
 	name := fmt.Sprintf("c04%s_%d", shardTag, time.Now().UnixNano())
-	cfg := Config{Disk: true, Handles: 1, Colls: []string{allCollNames[0]}}
+	ncoll := c.Colls
+	if ncoll < 1 {
+		ncoll = 1
+	}
+	cfg := Config{Disk: true, Handles: 1, Colls: append([]string{}, allCollNames[:ncoll]...)}
 	base := uint64(time.Now().UnixNano()) + uint64(24*time.Hour)
-	mk := func(n int, tag string) []Op {
+	mk := func(n int, tag string, colls []int) []Op {
 		var ops []Op
 		keys := []string{"a", "b", "c"}
 		for i := 0; i < n; i++ {
 			k := keys[i%len(keys)]
+			ci := colls[i%len(colls)]
 			switch i % 4 {
 			case 0, 1:
-				ops = append(ops, Op{K: "Set", Key: k, Body: []byte(fmt.Sprintf(`{"%s":%d}`, tag, i))})
+				ops = append(ops, Op{K: "Set", C: ci, Key: k, Body: []byte(fmt.Sprintf(`{"%s":%d}`, tag, i))})
 			case 2:
-				ops = append(ops, Op{K: "SetXattrs", Key: k, X: map[string]string{"_sync": fmt.Sprintf(`{"seq":%d}`, i)}})
+				ops = append(ops, Op{K: "SetXattrs", C: ci, Key: k, X: map[string]string{"_sync": fmt.Sprintf(`{"seq":%d}`, i)}})
 			case 3:
-				ops = append(ops, Op{K: "Delete", Key: k})
+				ops = append(ops, Op{K: "Delete", C: ci, Key: k})
 			}
 		}
 		return ops
 	}
-	p1 := &ChildPlan{Dir: dir, Name: name, Config: cfg, Steps: mk(c.Writes1, "p"), Clock: &ClockPlan{BaseNs: base, Offsets: []int64{0, 1000, 0, 70000, 5}}, NoClose: c.Kill != nil, Crash: c.Kill}
+	all := make([]int, ncoll)
+	for i := range all {
+		all[i] = i
+	}
+	steps1 := mk(c.Writes1, "p", all)
+	left := all
+	switch c.Tail {
+	case "drop":
+		if ncoll > 1 {
+			// the newest CAS of the bucket lives in a collection that then disappears
+			steps1 = append(steps1, Op{K: "Set", C: ncoll - 1, Key: "z", Body: []byte(`{"last":1}`)}, Op{K: "DropColl", C: ncoll - 1})
+			left = all[:ncoll-1]
+		}
+	case "purge":
+		// ... or in a document that is deleted and purged
+		steps1 = append(steps1, Op{K: "Set", Key: "z", Body: []byte(`{"last":1}`)}, Op{K: "Delete", Key: "z"}, Op{K: "Purge"})
+	}
+	p1 := &ChildPlan{Dir: dir, Name: name, Config: cfg, Steps: steps1, Clock: &ClockPlan{BaseNs: base, Offsets: []int64{0, 1000, 0, 70000, 5}}, NoClose: c.Kill != nil, Crash: c.Kill}
 	r1, err := RunChild(p1, 60*time.Second)
 	if err != nil {
 		return nil, err
@@ -330,7 +356,7 @@ func runReopenCase(c reopenCase) ([]Deviation, error) {
 		model = a.Model
 	}
 	// second process: the wall clock is far behind
-	p2 := &ChildPlan{Dir: dir, Name: name, Config: cfg, Existing: true, Steps: mk(c.Writes2, "q"), Clock: &ClockPlan{BaseNs: uint64(int64(base) - c.Back), Offsets: []int64{0, 0, 3, -1000000, 0}}}
+	p2 := &ChildPlan{Dir: dir, Name: name, Config: cfg, Existing: true, Steps: mk(c.Writes2, "q", left), Clock: &ClockPlan{BaseNs: uint64(int64(base) - c.Back), Offsets: []int64{0, 0, 3, -1000000, 0}}}
 	// the interrupted call of the first process may or may not have been applied: let the second
 	// process start from what it finds (Set / SetXattrs / Delete need no symbolic CAS)
 	_ = model
@@ -375,7 +401,7 @@ func runReopenCase(c reopenCase) ([]Deviation, error) {
 
 func TestC04Reopen(t *testing.T) {
 	st := statsFor("C04", "TestC04Reopen")
-	st.Rule = "two child processes on one on-disk bucket: the first writes with the global clock a day ahead and then closes, exits without closing, or is SIGKILLed at a generated hook occurrence; the second reopens the bucket with the clock minutes..days behind the first and writes; every CAS acknowledged by the second process must exceed every CAS acknowledged by the first; non-trivial = the second clock is behind the persisted high-water mark and both processes acknowledged writes; distinct by case parameters"
+	st.Rule = "two child processes on one on-disk bucket: the first writes with the global clock a day ahead and then closes, exits without closing, or is SIGKILLed at a generated hook occurrence (its writes are spread over 1-3 collections; optionally the collection holding the newest CAS is dropped, or the newest document deleted and purged, before it ends); the second reopens the bucket with the clock minutes..days behind the first and writes; every CAS acknowledged by the second process must exceed every CAS acknowledged by the first; non-trivial = the second clock is behind the persisted high-water mark and both processes acknowledged writes; distinct by case parameters"
 	if replayMode() {
 		rp := loadReplay("TestC04Reopen")
 		if rp == nil {
@@ -398,10 +424,12 @@ func TestC04Reopen(t *testing.T) {
 	var once sync.Once
 	rapid.Check(t, func(rt *rapid.T) {
 		c := reopenCase{Writes1: rapid.IntRange(1, 8).Draw(rt, "w1"), Writes2: rapid.IntRange(1, 5).Draw(rt, "w2")}
+		c.Colls = rapid.IntRange(1, 3).Draw(rt, "colls")
+		c.Tail = pick(rt, []string{"", "", "drop", "purge"}, "tail")
 		c.Back = pick(rt, []int64{int64(time.Minute), int64(time.Hour), int64(23 * time.Hour), int64(48 * time.Hour), 70000}, "back")
 		switch rapid.IntRange(0, 2).Draw(rt, "end") {
 		case 1:
-			c.Kill = &CrashPoint{Hook: pick(rt, []string{"tx.afterCommit", "cas.beforePost", "tx.beforeCommit", "cas.afterDocWrite"}, "kill.hook"), Nth: rapid.IntRange(1, c.Writes1).Draw(rt, "kill.nth")}
+			c.Kill = &CrashPoint{Hook: pick(rt, []string{"tx.afterCommit", "cas.beforePost", "tx.beforeCommit", "cas.afterDocWrite"}, "kill.hook"), Nth: rapid.IntRange(1, c.Writes1+2).Draw(rt, "kill.nth")}
 		case 2:
 			c.Kill = &CrashPoint{Hook: "never", Nth: 1} // exits without closing
 		}
